@@ -1,4 +1,5 @@
 import RavenModel.Model.Blob
+import RavenModel.Gen.Facts
 /-! # C15 — out-of-line blob storage and de-duplication are invisible to readers -/
 namespace Raven.Props.C15
 open Raven Raven.Blob
@@ -35,5 +36,42 @@ theorem store_fault_safe (s3Enabled s3Ok localOk : Bool) :
     (place s3Enabled s3Ok localOk = .s3 → s3Enabled = true ∧ s3Ok = true) ∧
     (place s3Enabled s3Ok localOk = .localBlob → localOk = true) := by
   cases s3Enabled <;> cases s3Ok <;> cases localOk <;> simp [place]
+
+/-- what a reader gets for a part: its stored text, a reported error, or — silently — nothing -/
+inductive ReadOut where | content | error | empty
+deriving DecidableEq, Repr
+
+/-- reading a part (`parser.LoadBlobContent`, used by the reconstruction of the whole message and by section fetches alike):
+inline text and the blob table are always at hand; an object is at hand when the reader has the object store and the store
+hands it out; otherwise the read is an error, which FETCH reports (tagged NO, nothing sent for the message). -/
+def readPart (pl : Place) (readerS3 objOk : Bool) : ReadOut :=
+  match pl with
+  | .inline => .content
+  | .localBlob => .content
+  | .s3 => if readerS3 && objOk then .content else .error
+
+/-- the three read sites before repair: an object that could not be read was skipped -/
+def readPartOld (pl : Place) (readerS3 objOk : Bool) : ReadOut :=
+  match pl with
+  | .inline => .content
+  | .localBlob => .content
+  | .s3 => if readerS3 && objOk then .content else .empty
+
+/-- C15.4  a failure while reading is reported as an error, never as silently empty content: for every placement, reader
+configuration and object-store answer the outcome is the content or an error, and it is an error exactly when the part lives
+in the object store and the reader has no object store or the store does not hand the object out. -/
+theorem read_fault_reported (pl : Place) (readerS3 objOk : Bool) :
+    readPart pl readerS3 objOk ≠ .empty ∧
+    (readPart pl readerS3 objOk = .error ↔ (pl = .s3 ∧ (readerS3 = false ∨ objOk = false))) := by
+  cases pl <;> cases readerS3 <;> cases objOk <;> simp [readPart]
+
+/-- …which was false before the repair (finding C15-F2 until then): a missing object, and an object store the reader does not
+have, both read as nothing. -/
+theorem old_read_silently_empty : readPartOld .s3 true false = .empty ∧ readPartOld .s3 false true = .empty := by decide
+
+/-- C15.4'  the code has one place that reads from the object store, and it hands the error on (regenerated from /repo on
+every run: every call of `Retrieve`, and whether it is followed by `if err != nil { return …, err }`) — a new read site, or
+one that looks at the error only to skip the content, breaks this. -/
+theorem read_errors_handed_on : Gen.retrieveSites = [((b!"parser.LoadBlobContent"), true)] := by decide
 
 end Raven.Props.C15
